@@ -413,7 +413,13 @@ func (p *prop) runBatch(c core.Case, w *core.Worker, res *core.Result, r *rand.R
 	for i := 0; i < n; i++ {
 		name := fmt.Sprintf("part%d", i)
 		var src strings.Builder
-		fmt.Fprintf(&src, "package %s\n\nimport (\n\t\"net/url\"\n\n\t\"%s/origin\"\n)\n\nvar _ url.URL\n\n", name, mod)
+		// a grouped import with several specs; in half of the packages the partial types are the FIRST declarations
+		// after it (the blank use of net/url then comes last)
+		urlUseLast := r.Intn(2) == 0
+		fmt.Fprintf(&src, "package %s\n\nimport (\n\t\"net/url\"\n\n\t\"%s/origin\"\n)\n\n", name, mod)
+		if !urlUseLast {
+			src.WriteString("var _ url.URL\n\n")
+		}
 		var ps []*partial
 		np := 1 + r.Intn(4)
 		mk := func(grouped bool) *partial {
@@ -498,6 +504,9 @@ func (p *prop) runBatch(c core.Case, w *core.Worker, res *core.Result, r *rand.R
 			src.WriteString(doc(pt, ""))
 			fmt.Fprintf(&src, "type %s url.URL\n\n", pt.decl)
 			ps = append(ps, pt)
+		}
+		if urlUseLast {
+			src.WriteString("var _ url.URL\n")
 		}
 		pks = append(pks, pk{name, src.String(), ps})
 		m.MustWrite(filepath.Join(name, "types.go"), src.String())
